@@ -1437,7 +1437,7 @@ func (client *client) pollInflights() (cont bool, err error) {
 				return false, nil
 			}
 			client.pl.markUsedLocked(id)
-			client.write(gmqtt.MessageToPublish(m.Message, client.version))
+			client.write(client.publishWithRemainingExpiry(m.Message, v.At, time.Now()))
 		case *queue.Pubrel:
 			// the packet id is still in use until the PUBCOMP is received.
 			client.pl.markUsedLocked(id)
@@ -1462,20 +1462,26 @@ func (client *client) pollNewMessages(ids []packets.PacketID) (unused []packets.
 			if m.QoS != packets.Qos0 {
 				ids = ids[1:]
 			}
-			if client.version == packets.Version5 && m.Message.MessageExpiry != 0 {
-				// forward the remaining lifetime: the received value minus the time the message has been waiting in the server.
-				if d := uint32(now.Sub(v.At).Seconds()); d < m.Message.MessageExpiry {
-					m.Message.MessageExpiry -= d
-				} else {
-					// not expired yet, otherwise queue.Read would not have returned it.
-					m.Message.MessageExpiry = 1
-				}
-			}
-			client.write(gmqtt.MessageToPublish(m.Message, client.version))
+			client.write(client.publishWithRemainingExpiry(m.Message, v.At, now))
 		case *queue.Pubrel:
 		}
 	}
 	return ids, err
+}
+
+// publishWithRemainingExpiry builds the PUBLISH packet of msg. The Message Expiry Interval it carries is the received
+// value minus the time the message has been waiting in the server [MQTT-3.3.2-6]. The stored message keeps the received
+// value, so that a retransmission is given what is left by then.
+func (client *client) publishWithRemainingExpiry(msg *gmqtt.Message, at time.Time, now time.Time) *packets.Publish {
+	pub := gmqtt.MessageToPublish(msg, client.version)
+	if client.version == packets.Version5 && msg.MessageExpiry != 0 && pub.Properties != nil && pub.Properties.MessageExpiry != nil {
+		remaining := uint32(1) // the message is being delivered, so it cannot be 0 (which would mean: no expiry)
+		if d := uint32(now.Sub(at).Seconds()); d < msg.MessageExpiry {
+			remaining = msg.MessageExpiry - d
+		}
+		pub.Properties.MessageExpiry = &remaining
+	}
+	return pub
 }
 func (client *client) pollMessageHandler() {
 	var err error
